@@ -353,7 +353,7 @@ MONITORS = {"tc28": m_tc28, "v2": m_v2, "v1": m_v1, "tc31": m_tc31, "tc19q": m_t
 
 def cases(ctx):
     quick = ctx.tier == "quick"
-    reps = 1 if quick else 8
+    reps = 3 if quick else 8
     i = 0
     for rep in range(reps * 2):
         if ctx.mine(i):
